@@ -458,5 +458,50 @@ theorem java_eqw_c_ElectronConfig_Biggs :
 end biggs
 
 
+section catches
+variable (T : Tables ℝ) (Z m : Int) (hZ : inI32 Z) (hm : inI32 m)
+include hZ hm
+
+theorem catch_EdgeEnergy : JCatchRel (JGen.EdgeEnergy_catch (JTables.ofC T) Z m) (Gen.EdgeEnergy T Z m Slot.null) := by
+  unfold JGen.EdgeEnergy_catch; exact JCatchRel.of_rel (java_eq_c_EdgeEnergy T Z m hZ hm Slot.null rfl)
+theorem catch_FluorYield : JCatchRel (JGen.FluorYield_catch (JTables.ofC T) Z m) (Gen.FluorYield T Z m Slot.null) := by
+  unfold JGen.FluorYield_catch; exact JCatchRel.of_rel (java_eq_c_FluorYield T Z m hZ hm Slot.null rfl)
+theorem catch_JumpFactor : JCatchRel (JGen.JumpFactor_catch (JTables.ofC T) Z m) (Gen.JumpFactor T Z m Slot.null) := by
+  unfold JGen.JumpFactor_catch; exact JCatchRel.of_rel (java_eq_c_JumpFactor T Z m hZ hm Slot.null rfl)
+theorem catch_CosKronTransProb : JCatchRel (JGen.CosKronTransProb_catch (JTables.ofC T) Z m) (Gen.CosKronTransProb T Z m Slot.null) := by
+  unfold JGen.CosKronTransProb_catch; exact JCatchRel.of_rel (java_eq_c_CosKronTransProb T Z m hZ hm Slot.null rfl)
+theorem catch_RadRate : JCatchRel (JGen.RadRate_catch (JTables.ofC T) Z m) (Gen.RadRate T Z m Slot.null) := by
+  unfold JGen.RadRate_catch; exact JCatchRel.of_rel (java_eq_c_RadRate T Z m hZ hm Slot.null rfl)
+end catches
+
+section jumps
+variable (T : Tables ℝ) (Z : Int) (hZ : inI32 Z) (E : ℝ) (s : Slot) (hs : s.isFull = false)
+include hZ
+
+theorem java_pos_JumpFactor (m : Int) (hm : inI32 m) : JPos (JGen.JumpFactor (JTables.ofC T) Z m) := by
+  jeq_startJ JGen.JumpFactor; jpos_auto
+theorem java_pos_FluorYield (m : Int) (hm : inI32 m) : JPos (JGen.FluorYield (JTables.ofC T) Z m) := by
+  jeq_startJ JGen.FluorYield; jpos_auto
+theorem java_pos_EdgeEnergy (m : Int) (hm : inI32 m) : JPos (JGen.EdgeEnergy (JTables.ofC T) Z m) := by
+  jeq_startJ JGen.EdgeEnergy; jpos_auto
+
+include hs
+/-- the K-shell absorption share: C reports a vanishing share itself (src/cs_line.c), Java leaves that to `CS_FluorShell` -/
+theorem jump_K_rel :
+    JRel (do let f ← JGen.Jump_from_K (JTables.ofC T) Z E
+             if f = 0 then throw (JStop.iae "Jump factor unavailable for element and shell") else pure f)
+      (Gen.Jump_from_K T Z E s) s := by
+  jeq_start JGen.Jump_from_K Gen.Jump_from_K
+  jeq_use_pos (java_eq_c_EdgeEnergy T Z 0 hZ (by decide) s hs), (java_pos_EdgeEnergy T Z hZ 0 (by decide))
+  jeq_simp
+  split_ifs
+  · jeq_use_pos (java_eq_c_JumpFactor T Z 0 hZ (by decide) s hs), (java_pos_JumpFactor T Z hZ 0 (by decide))
+    jeq_simp
+    jeq_use_pos (java_eq_c_FluorYield T Z 0 hZ (by decide) s hs), (java_pos_FluorYield T Z hZ 0 (by decide))
+    jeq_auto
+  · jeq_auto
+end jumps
+
+
 end C19
 end Xrl
